@@ -43,7 +43,16 @@ def check(prog, rep):
     for fi, call in mins:
         rep.section(_wiring, prog, rep, fi, call)
         rep.section(_success_optimal, prog, rep, fi, call)
-    rep.section(_bounds, prog, rep, {fi.module.name for fi, _c in mins})
+    # the modules of the minimize() callers and the package modules they import helpers from (a helper moved into a
+    # private module of the same package is still part of the wrapper)
+    mods_ = {fi.module.name for fi, _c in mins}
+    for mn in list(mods_):
+        for tgt in prog.modules[mn].imports.values():
+            tm = tgt.rpartition(".")[0]
+            for cand in (tm, f"{mn.rpartition('.')[0]}.{tm}".strip(".")):
+                if cand in prog.modules and cand.startswith("optyx.solvers"):
+                    mods_.add(cand)
+    rep.section(_bounds, prog, rep, mods_)
     rep.section(_x0, prog, rep)
     rep.section(_auto, prog, rep)
     rep.section(_every_constraint, prog, rep)
